@@ -15,6 +15,11 @@ var vfCandForeignCommit bool
 func vfH_C12_candidate_commit() {
 	env, m := vfArbiter(false)
 	vfCandMgr = m
+	// the other two members are data nodes, or arbiters (they vote but hold no data): a majority is
+	// a majority of ALL members either way
+	if vfChoice("othersAreArbiters", 2) == 1 {
+		m.members[1].arbiter, m.members[2].arbiter = 1, 1
+	}
 	vfCandBp = NewBinaryServerProtocol(env.slock, NewStream(&vfConn{}))
 	m.members[2].server = NewArbiterServer(vfCandBp)
 	bpB := vfRemote(env, m)
@@ -39,7 +44,7 @@ func vfH_C12_candidate_commit() {
 	vfGoInline(true)
 	err := v.DoCommit()
 	vfGoInline(false)
-	vfAssert(err != nil, "C12: harness: the commit round was expected to fail (own vote only)")
+	vfAssert(err != nil, "C12: a commit round succeeded with the candidate's own acknowledgement only: no majority of the members")
 	if foreign {
 		vfReach("foreign-committed")
 		vfAssert(v.proposalHost == fhost && v.commitId == 6, "C12: a failed commit round of its own made the member forget the commit it had given to another candidate")
